@@ -6,6 +6,7 @@ ERR-2 every Gaussian sampling shape function asks for the placement with its own
       factor the same placement returned
 ERR-3 every scalar sampler stores a value derived from a sample that passed the rejection test `|sample| > bound` (false arm) against its own `bound` parameter, and the
       sample is not redefined between the test and the store: every stored error is at most `bound` (times the scale) in magnitude
+POS-1 an encryption that takes a GLWE / LWE plaintext compares the plaintext's radix with the ciphertext's before moving limbs (entry or a routine it hands the plaintext to)
 RND-1 / RND-9 (shared with C06) noise is injected on every path of every encryption; sigma and bound carry the same scale
 RAD-2 (shared) no call of a radix-asserting operation with operands the guards make different
 Not decided: the magnitude of the decryption error (1-norms of secrets, rounding), the plaintext position arithmetic of the normalisations (C08), the mask products (C07/C09).
@@ -302,6 +303,105 @@ def _derives_from(b, flow, rv, locs, depth=0):
     return any(dep(o, 0) for o in rv.get("o", []))
 
 
+PT_T = ("to_ref", "to_mut", "deref", "deref_mut", "borrow", "as_ref", "as_mut", "into", "from", "clone", "data", "data_mut", "unwrap", "expect", "as_usize", "as_u32")
+
+
+def _reaches_param(f, flow, op, pl, depth=0):
+    """the operand is (or is an aggregate - tuple / Option - built from) the object rooted at parameter pl"""
+    for r in flow.op_roots(op):
+        if r[0] == "param" and r[1] == pl:
+            return True
+        if r[0] == "agg" and depth < 3:
+            st = f.blocks[r[1]]["s"][r[2]][2]
+            if any(_reaches_param(f, flow, o, pl, depth + 1) for o in st.get("o", [])):
+                return True
+    return False
+
+
+def _pt_radix_compared(p, f, pl, depth=0):
+    """f (or a library callee it hands its parameter `pl` to, two levels) compares `base2k` of the object rooted at parameter pl with another value (eq / ne / assert_eq)"""
+    flow = Flow(f, transparent=PT_T)
+    mine = set()
+    for bi, t in f.calls():
+        if (f.callee_def(t) or {}).get("n") == "base2k" and t["a"]:
+            if any(r[0] == "param" and r[1] == pl for r in flow.op_roots(t["a"][0])):
+                mine.add(bi)
+    if mine:
+        def from_mine(op):
+            return any(r[0] == "call" and r[1] in mine for r in flow.op_roots(op))
+        for bi, t in f.calls():
+            if (f.callee_def(t) or {}).get("n") in ("eq", "ne") and len(t["a"]) == 2 and (from_mine(t["a"][0]) != from_mine(t["a"][1])):
+                return True
+        for blk in f.blocks:
+            for st in blk["s"]:
+                if st[0] == "A" and st[2]["k"] == "Bin" and st[2].get("op") in ("Eq", "Ne") and (from_mine(st[2]["o"][0]) != from_mine(st[2]["o"][1])):
+                    return True
+    if depth >= 2:
+        return False
+    for bi, t in f.calls():
+        for i, a in enumerate(t["a"]):
+            if not _reaches_param(f, flow, a, pl):
+                continue
+            for u in p.targets(f, t):
+                g = p.fn(u)
+                if g is None or not g.blocks or not g.uid.startswith("poulpy_core::") or g.uid == f.uid:
+                    continue
+                if i + 1 <= g.argc and _pt_radix_compared(p, g, i + 1, depth + 1):
+                    return True
+    return False
+
+
+def _pt_view(p, f, pl, depth=0):
+    """type of the view `to_ref()` builds from the object rooted at parameter pl, in f or in a routine f hands it to (closures of f included)"""
+    bodies = [f] + list(p.closures_of(f))
+    for b in bodies:
+        flow = Flow(b, transparent=PT_T)
+        for bi, t in b.calls():
+            if (b.callee_def(t) or {}).get("n") == "to_ref" and t["a"] and len(t["d"]) == 1:
+                rr = flow.op_roots(t["a"][0])
+                if (b is f and any(r[0] == "param" and r[1] == pl for r in rr)) or (b is not f and any(r[0] == "param" for r in rr) and "Plaintext" in b.local_ty(t["d"][0]).get("s", "")):
+                    ty = b.local_ty(t["d"][0]).get("s", "")
+                    if "Plaintext" in ty or b is f:
+                        return ty
+    if depth >= 2:
+        return None
+    flow = Flow(f, transparent=PT_T)
+    for bi, t in f.calls():
+        for i, a in enumerate(t["a"]):
+            if _reaches_param(f, flow, a, pl):
+                for u in p.targets(f, t):
+                    g = p.fn(u)
+                    if g is not None and g.blocks and g.uid.startswith("poulpy_core::") and g.uid != f.uid and i + 1 <= g.argc:
+                        v = _pt_view(p, g, i + 1, depth + 1)
+                        if v:
+                            return v
+    return None
+
+
+def pos1(p, res):
+    """an encryption that is handed a (GLWE / LWE) plaintext object moves its limbs into a buffer of the ciphertext's radix: the plaintext's radix has to be compared with the
+    ciphertext's (or with the radix parameter of the internal routine) somewhere on the way - by the entry or by a routine it hands the plaintext to"""
+    n = 0
+    for f in sorted(p.lib_fns(), key=lambda x: x.uid):
+        if f.kind == "Closure" or not f.blocks or not f.uid.startswith("poulpy_core::encryption") or f.name.endswith("tmp_bytes") or "internal" in f.name:
+            continue
+        pn = {v: k for k, v in f.param_names().items()}
+        if "pt" not in pn:
+            continue
+        # a radix-carrying plaintext: its view type is a *Plaintext (matrix encryptions take a scalar polynomial, which has no radix)
+        view = _pt_view(p, f, pn["pt"])
+        if view is None or "Plaintext" not in view:
+            continue
+        n += 1
+        if _pt_radix_compared(p, f, pn["pt"]):
+            res.ok("POS-1", {"fn": f.pretty, "plaintext": view})
+        else:
+            res.bad("POS-1", f.pretty, "plaintext-radix-not-compared",
+                    "%s moves the limbs of its plaintext into a buffer of the ciphertext's radix and neither it nor the routines it hands the plaintext to compare the two radices: a "
+                    "plaintext of another base2k is encrypted at another torus position without any error" % f.pretty, site=f.where())
+    return n
+
+
 def run(res, tier):
     res.level = "other"
     res.explanation = ("Only the placement and truncation of the fresh error are decided: the placement function puts an error of precision k on the limb and with the scale that make it "
@@ -313,6 +413,7 @@ def run(res, tier):
     res.rule("ERR-2", "Gaussian sampling shape functions: placement asked with the own radix, noise written to the placement's limb, sigma and bound scaled by the placement's factor")
     res.rule("ERR-3", "scalar samplers store only samples that passed `|sample| > bound` == false against their own bound parameter")
     res.rule("RND-9", "sigma and bound of every Gaussian sampling site carry the same scale factor (shared with C06)")
+    res.rule("POS-1", "encryptions taking a GLWE / LWE plaintext compare its radix with the ciphertext's (entry or a routine the plaintext is handed to)")
     res.assumptions = ["rand_distr::Normal samples N(0, sigma); f64 rounding of the sample adds at most 1/2", "every encryption injects the noise exactly once: RND-1 / RND-7 under C06"]
     cfgs = ["avx-dev"] if tier == "quick" else ["avx-dev", "ref-dev"]
     for cfg in cfgs:
@@ -327,4 +428,6 @@ def run(res, tier):
         from .c06 import rnd9
         n9 = rnd9(p, res)
         res.floor("RND-9", "Gaussian sampling sites", n9, 6)
+        np1 = pos1(p, res)
+        res.floor("POS-1", "encryptions taking a radix-carrying plaintext", np1, 4)
         res.fn_count += n1 + n2 + n3
